@@ -25,6 +25,7 @@ def gen_program(seed, idx, tier):
     rs = rng.Stream(seed, "C01", "program", idx)
     big = tier == "thorough" and rs.below(3) == 0
     g = coro.Gen(rs, max_depth=4 if big else 3, max_stmts=16 if big else 11)
+    g.push = rs.below(4) == 0
     return g.program()
 
 
@@ -105,7 +106,7 @@ def simulate(prog, text, temp_names, stim, order_seed, order_mode="uniform", off
                 pass
             else:
                 exp = ref.step(step)
-            got = {n: b.get(n) for n in OUTS}
+            got = {n: b.get(n) for n in ref.OUTS}
             if state_sid is not None:
                 st_after = sim.V[state_sid]
                 seen_states.add(st_before)
@@ -113,7 +114,7 @@ def simulate(prog, text, temp_names, stim, order_seed, order_mode="uniform", off
             if got != exp:
                 return "mismatch", {"clock": k, "expected": exp, "got": got}, stats
             b.half()
-            got2 = {n: b.get(n) for n in OUTS}
+            got2 = {n: b.get(n) for n in ref.OUTS}
             if got2 != exp:
                 return "mismatch", {"clock": k, "expected": exp, "got": got2, "phase": "inactive-edge"}, stats
             if sim.asserts:
